@@ -184,7 +184,21 @@ func genRefusal(rt *rapid.T) refusalCase {
 			rt.Skip("list bound too large to exceed")
 		}
 	case "choice":
-		if low {
+		// a third way of leaving a CHOICE unset: the alternative was switched but Present left behind - it names an
+		// alternative that is nil while the value sits in another one (needs a second pointer alternative)
+		other := -1
+		if cur := int(s.v.Field(0).Int()); cur > 0 && cur < s.v.NumField() && s.v.Field(cur).Kind() == reflect.Ptr {
+			for j := 1; j < s.v.NumField(); j++ {
+				if j != cur && s.v.Field(j).Kind() == reflect.Ptr && s.v.Field(j).IsNil() {
+					other = j
+					break
+				}
+			}
+		}
+		if other > 0 && rapid.IntRange(0, 2).Draw(rt, "stale_present") == 1 {
+			s.v.Field(0).SetInt(int64(other))
+			broken = "choice-names-a-nil-alternative"
+		} else if low {
 			s.v.Field(0).SetInt(0)
 			broken = "choice=0"
 		} else {
